@@ -167,3 +167,91 @@ def run(ctx, F, rule=RULE):
                "ZBDDCache::post_reorder_mut (%s): %s" % (F.where(fid), " || ".join(fails[:3]) if fails else
                                                          "Base first, then bottom-up one don't-care node per level on top of the previous entry"))
     return n
+
+
+def check_restrict_base_loop(ctx, F, rule="E-TABLE.step.zbase.iter"):
+    """ZBDD `restrict_base`: when the cube skips the levels level..node_level-1 (don't-care positions), the result for
+    the levels below gets one don't-care node per skipped level.  The loop must range over `(level..node_level)` and
+    one iteration on `res` at level l must produce node(l; res, res) in the view of l."""
+    import eprep
+    fid = next((f for f in F.hir if f.startswith("oxidd_rules_zbdd::apply_rec::restrict::restrict_base")), None)
+    if not ctx.anchor(rule, "oxidd_rules_zbdd::apply_rec::restrict::restrict_base", fid is not None):
+        return 0
+    loops = []
+
+    def walk(x):
+        if isinstance(x, dict):
+            if x.get("k") == "match" and x.get("src", "").startswith("ForLoopDesugar") and \
+                    ((x.get("e") or {}).get("f") or {}).get("n", "").endswith("into_iter"):
+                loops.append(x)
+            for v in x.values():
+                walk(v)
+        elif isinstance(x, list):
+            for v in x:
+                walk(v)
+    walk(F.hir[fid]["body"])
+    fails = []
+    n = 0
+    if len(loops) != 1:
+        ctx.ob(rule, rule, False, "%s (%s): expected exactly one loop over the skipped levels, found %d" % (fid, F.where(fid), len(loops)))
+        return 1
+    it_expr, pat, arm = eprep.loop_parts(loops[0])
+    rng = it_expr
+    if rng.get("k") == "mcall" and rng.get("name") == "rev":
+        rng = rng["r"]
+    while rng.get("k") in ("use",):
+        rng = rng["e"]
+    # evaluate the range with the `level` parameter = 2 and the cube node's level = 6
+    h = F.hir[fid]
+    pnames = [p.get("n") for p in h["params"]]
+    nl = []
+
+    def find_lets(x):
+        if isinstance(x, dict):
+            if x.get("k") == "slet" and x["p"].get("k") == "bind" and (x.get("e") or {}).get("k") == "mcall" \
+                    and x["e"].get("name") == "level":
+                nl.append(x["p"]["n"])
+            for v in x.values():
+                find_lets(v)
+        elif isinstance(x, list):
+            for v in x:
+                find_lets(v)
+    find_lets(h["body"])
+    ok_rng = False
+    if len(pnames) == 3 and len(nl) == 1 and rng.get("k") == "struct":
+        def mk0(oracle):
+            return Interp(F, TautDomain(F), oracle)
+        for trace, (status, val) in enumerate_runs(mk0, lambda it: it.ev(rng, {"$consts": {}, "$fn": fid, pnames[2]: 2, nl[0]: 6})):
+            n += 1
+            fl = getattr(val, "fields", None) or {}
+            ok_rng = status == "ok" and fl.get("start") == 2 and fl.get("end") == 6 and getattr(val, "path", "").endswith("Range")
+    if not ok_rng:
+        fails.append("the loop does not range over `level..node_level` (exactly the levels skipped by the cube)")
+    res0 = Edge(("N", "res"))
+
+    class D(TautDomain):
+        def method(self, it, m, e, env):
+            if m in ("oxidd_core::Manager::level", "oxidd_core::Manager::level_unchecked"):
+                it.recv(e, env)
+                (lvl,) = it.args(e, env)
+                return ("levelview", lvl)
+            return super().method(it, m, e, env)
+
+    def mk(oracle):
+        return Interp(F, D(F), oracle)
+
+    def go(it):
+        env = {"$consts": {}, "$fn": fid, "manager": Opaque("manager"), "$mut": {"res": res0}}
+        if not it.match(pat, 4, env):
+            raise Unrecognised("loop pattern")
+        it.ev(arm, env)
+        return env["$mut"]["res"]
+    for trace, (status, val) in enumerate_runs(mk, go):
+        n += 1
+        okn = status == "ok" and isinstance(val, Edge) and val.node[0] == "NEW" and val.node[1] == 4 and val.node[2] == 4 \
+            and tuple(val.node[3]) == (res0, res0)
+        if not okn:
+            fails.append("one iteration at level 4 yields %s %r, expected node(4; res, res)" % (status, val))
+    ctx.ob(rule, rule, not fails, "%s (%s): %s" % (fid, F.where(fid), " || ".join(fails[:3]) if fails else
+                                                  "one don't-care node per skipped level"))
+    return n
